@@ -4487,8 +4487,11 @@ impl BytecodeVM {
                 let final_getter = new_getter.cloned().or(existing_getter);
                 let final_setter = new_setter.cloned().or(existing_setter);
 
-                // Create accessor property
-                let property = Property::accessor(final_getter, final_setter);
+                // Create accessor property: enumerable in an object literal, not in a class
+                let mut property = Property::accessor(final_getter, final_setter);
+                if !is_static || class_obj.borrow().is_callable() {
+                    property.set_enumerable(false);
+                }
                 target.borrow_mut().define_property(prop_key, property);
 
                 Ok(OpResult::Continue)
@@ -4623,8 +4626,11 @@ impl BytecodeVM {
                 let final_getter = new_getter.cloned().or(existing_getter);
                 let final_setter = new_setter.cloned().or(existing_setter);
 
-                // Create accessor property
-                let property = Property::accessor(final_getter, final_setter);
+                // Create accessor property: enumerable in an object literal, not in a class
+                let mut property = Property::accessor(final_getter, final_setter);
+                if !is_static || class_obj.borrow().is_callable() {
+                    property.set_enumerable(false);
+                }
                 target.borrow_mut().define_property(prop_key, property);
 
                 Ok(OpResult::Continue)
